@@ -1038,6 +1038,122 @@ val fama_parse_ctc : xml -> char list list -> ctc result
 
 val fama_read : xml -> pfm result
 
+val uvl_operator : astop -> char list option
+
+val uvl_keywords : char list list
+
+type uvalue =
+| UVBool of char list
+| UVFloat of char list * char list
+| UVInt of char list
+| UVStr of char list
+| UVAttrs of uattr list
+| UVVector of uvalue list
+and uattr =
+| UAValue of char list * uvalue option
+| UAConstraint
+| UAOther
+
+type gkind =
+| GOr
+| GAlt
+| GOpt
+| GMand
+| GCard of char list
+
+type ufeature =
+| UFeature of char list option * char list * char list option
+   * uattr list option * ugroup list
+and ugroup =
+| UGroup of gkind * ufeature list
+
+type aggr =
+| AgSum
+| AgAvg
+| AgLen
+| AgFloor
+| AgCeil
+
+type ucst =
+| KLiteral of char list
+| KNot of ucst
+| KBin of astop * ucst * ucst
+| KParen of ucst
+| KInt of char list
+| KFloat of char list * char list
+| KStr of char list
+| KAggr of aggr * char list list
+
+type udoc = { d_root : ufeature option; d_ctcs : ucst list option }
+
+val is_plain_id : char list -> bool
+
+val uvl_safe_simple_name : char list -> char list
+
+val uvl_safename : char list -> char list
+
+val card_text : z -> z -> char list
+
+val float_text : char list -> char list option
+
+val value_cst : aval -> uvalue result
+
+val attrs_cst : feature -> uattr list option result
+
+val group_kind : relation -> gkind
+
+val ftype_value : ftype -> char list
+
+val feature_cst : feature -> ufeature result
+
+val aggr_of : astop -> aggr option
+
+val is_compound : node -> bool
+
+val node_cst : node -> ucst result
+
+val cst_of_fm : fm -> udoc result
+
+val tabs : nat -> char list
+
+val render_value : uvalue -> char list
+
+val render_attrs : uattr list option -> char list
+
+val render_gkind : gkind -> char list
+
+val render_feature : nat -> ufeature -> char list
+
+val aggr_name : aggr -> char list
+
+val render_cst : ucst -> char list
+
+val render : udoc -> char list
+
+val uvl_write : fm -> char list result
+
+val strip_quotes : char list -> char list
+
+val drop_ends : char list -> char list
+
+val split_dotdot : char list -> char list -> (char list * char list) option
+
+val to_int0 : char list -> z result
+
+val parse_cardinality : char list -> (z * z) result
+
+val value_aval : uvalue -> aval result
+
+val read_ftype : char list option -> ftype result
+
+val uvl_read_feature : path -> ptr -> ufeature -> pfeature result
+
+val astop_of_aggr : aggr -> astop
+
+val uvl_read_ctc : ucst -> node result
+
+val uvl_read_cst : udoc -> pfm result
+
 val metric_methods : char list list
 
 type mval =
@@ -1159,6 +1275,36 @@ val e_pfm : pfm -> sexp
 val e_xml : xml -> sexp
 
 val d_xml : sexp -> xml option
+
+val e_uvalue : uvalue -> sexp
+
+val e_uattr : uattr -> sexp
+
+val d_uvalue : sexp -> uvalue option
+
+val d_uattrs : sexp -> uattr list option option
+
+val e_gkind : gkind -> sexp
+
+val d_gkind : sexp -> gkind option
+
+val e_ufeature : ufeature -> sexp
+
+val d_optstr : sexp -> char list option option
+
+val d_ufeature : sexp -> ufeature option
+
+val aggr_atom : aggr -> char list
+
+val d_aggr : char list -> aggr option
+
+val e_ucst : ucst -> sexp
+
+val d_ucst : sexp -> ucst option
+
+val e_udoc : udoc -> sexp
+
+val d_udoc : sexp -> udoc option
 
 val e_names : feature list -> sexp
 
